@@ -468,6 +468,8 @@ OpAdoptStore(a, o, top, base) ==
 \* CloneRoot(o) ; AdoptStore(a, o), so traces contain ordinary calls only.
 OpEdge(a, o, top, base) ==
   /\ ~led.tore /\ led.rootS[o] > 0 /\ led.rootS[a] > 0 /\ led.valS[a][o] < Caps.stored /\ led.rec[a][o] < Caps.rec
+  /\ \A p \in Obj : led.made[p]                                       \* all objects first, then the edges
+  /\ SumObj([x \in Obj |-> SumObj(led.rec[x])]) < Caps.edges
   /\ Intact(a) /\ Intact(o)
   /\ Commit(AdoptHeap([heap EXCEPT !.strong[o] = @ + 1], a, o),
             [led EXCEPT !.rec[a][o] = @ + 1, !.adopted = TRUE, !.valS[a][o] = @ + 1],
